@@ -5,6 +5,8 @@ ops (see harness/src/freq.rs):
   4 merge dst src | 5 frequent slot error_type mode threshold | 6 serialize slot | 7 roundtrip src dst
   8 deserialize slot k hashes.. bytes.. | 9 reset slot | 10 epsilon slot
   11 parse slot k hashes.. bytes.. (slot cleared first, allocation accounted) | 12 canon slot (image decoded, pairs sorted)
+  20..25 = 0..5 on FrequentItemsSketch<String>: an item is `id` (the model's key) followed, at the end of the arguments, by its
+  UTF-8 bytes (what the crate gets); its hash is murmur(bytes + 0xff): std hashes a str with two writes
 focus (legs of the cross-cutting properties): "codec" C11, "layout" C12, "foreign" C13, "malformed" C14,
   "extremes" C17, "size" C18; "drift" / "drift-image": the DRIFT_LIMIT debug assertion (known findings); None = C07.
 The hash of an item (MurmurHash3 x64 128 of its 8 LE bytes, seed 9001, first word) is computed here
@@ -25,7 +27,8 @@ GEN_MODULES = [("GenFreq",
                  "LOAD_FACTOR", "DRIFT_LIMIT", "MAX_SAMPLE_SIZE", "SERIAL_VERSION", "PREAMBLE_LONGS_EMPTY",
                  "PREAMBLE_LONGS_NONEMPTY", "EMPTY_FLAG_MASK"])]
 OPNAMES = {0: "new", 1: "update", 2: "query", 3: "stats", 4: "merge", 5: "frequent_items", 6: "serialize",
-           7: "roundtrip", 8: "deserialize", 9: "reset", 10: "epsilon", 11: "parse", 12: "canon"}
+           7: "roundtrip", 8: "deserialize", 9: "reset", 10: "epsilon", 11: "parse", 12: "canon",
+           20: "new_str", 21: "update_str", 22: "query_str", 23: "stats_str", 24: "merge_str", 25: "frequent_items_str"}
 
 SEED = 9001
 SCRATCH = 7                 # slot that only receives round trips / deserialized images
@@ -270,6 +273,63 @@ def gen_images(rng, cid):
     ops2 += final_ops(rng, [0], items, [])
     ops2 += [(0, [2, 16]), (4, [2, 0]), (3, [2]), (6, [2])]
     return Case(cid, [], ops + ops2, tag="fi-images")
+
+
+# ---- String items: the same sketch over FrequentItemsSketch<String> (ops 20..25); the model keys an item by its id and
+# ---- gets the hash of what std feeds the hasher for a str: the UTF-8 bytes, then one 0xff byte (two writes)
+_shcache = {}
+
+
+def hs(b):
+    v = _shcache.get(b)
+    if v is None:
+        v = pyref.murmur3_x64_128(b + b"\xff", SEED)[0]
+        _shcache[b] = v
+    return v
+
+
+STR_LENS = [0, 1, 7, 8, 9, 15, 16, 17, 23, 24, 31, 32, 33, 47, 48, 64]
+
+
+def fresh_strings(rng, n):
+    """n distinct strings (as UTF-8 bytes) whose lengths sit on and around the hasher's 16-byte block boundaries"""
+    out, seen = [], set()
+    while len(out) < n:
+        ln = rng.choice(STR_LENS) if rng.random() < 0.8 else rng.randrange(0, 70)
+        chars = [rng.choice("abcdefghijklmnopqrstuvwxyz0123456789 _-/") for _ in range(ln)]
+        if ln >= 2 and rng.random() < 0.2:
+            chars[rng.randrange(ln - 1)] = rng.choice(["é", "ß", "中"])       # multi-byte characters
+        b = "".join(chars).encode("utf-8")
+        if b not in seen:
+            seen.add(b); out.append(b)
+    return out
+
+
+def gen_strings(rng, cid, tier):
+    """String items: updates, queries of every item, stats, frequent_items, a merge; purges included"""
+    size = rng.choice([8, 8, 16, 32])
+    cap = cap_of(size)
+    nd = rng.choice([cap, cap + 2, 2 * cap])
+    dom = fresh_strings(rng, nd)
+    ids = {b: i + 1 for i, b in enumerate(dom)}
+    ops = [(20, [0, size]), (20, [1, rng.choice([size, 8])])]
+    n = rng.choice([cap + 1, 3 * cap, 5 * cap])
+    for i in range(n):
+        b = dom[zipf_index(rng, nd)] if rng.random() < 0.5 else rng.choice(dom)
+        s = 0 if rng.random() < 0.8 else 1
+        w = rng.choice([1, 1, 2, 5])
+        ops.append((21, [s, ids[b], w, hs(b)] + list(b)))
+        if i % 9 == 8:
+            q = rng.choice(dom)
+            ops.append((22, [s, ids[q], hs(q)] + list(q)))
+    ops += [(23, [0]), (23, [1]), (24, [0, 1]), (23, [0])]
+    unseen = b"never seen before, longer than two blocks of the hasher"
+    for s in (0, 1):
+        for b in dom:
+            ops.append((22, [s, ids[b], hs(b)] + list(b)))
+        ops.append((22, [s, 10**6, hs(unseen)] + list(unseen)))
+        ops += [(25, [s, 0, 0, 0]), (25, [s, 1, 0, 0]), (25, [s, 1, 1, 2]), (23, [s])]
+    return Case(cid, [], ops, tag="fi-strings-%d" % size)
 
 
 def gen_badnew(rng, cid):
@@ -640,6 +700,95 @@ def gen_malformed(rng, cid, tier):
     return Case(cid, [], ops, tag="fi-malformed")
 
 
+U8_BOUNDS = [0, 1, 2, 3, 4, 30, 31, 32, 62, 63, 64, 255]
+U32_BOUNDS = [0, 1, 2**31 - 1, 2**31, 2**32 - 1]
+U64_BOUNDS = [0, 1, 2**63 - 1, 2**63, 2**64 - 2, 2**64 - 1]
+I64_BOUNDS = [-2**63, -1, 0, 2**63 - 1]
+
+
+def boundary_images(rng):
+    """otherwise VALID images (both forms) with every numeric field at the boundaries of its type, one field at a time
+    and in pairs.  Images that would be accepted with a table of more than 2^10 slots are left to gen_bigalloc."""
+    out = []
+    lgm, lgc = 5, 4
+    cap = (1 << lgc) * 3 // 4
+    items = fresh_items(rng, cap + 1, "small")
+    base_pairs = [(x, 2 + i) for i, x in enumerate(items[:3])]
+    bw = sum(c for _, c in base_pairs) + 10
+
+    def full(lg_max=lgm, lg_cur=lgc, weight=bw, offset=3, pairs=base_pairs, **kw):
+        return spec_image(lg_max, lg_cur, weight, offset, pairs, short=False, **kw)
+
+    def empty(lg_max=lgm, lg_cur=lgc, **kw):
+        return spec_image(lg_max, lg_cur, 0, 0, [], **kw)
+
+    # lg_max / lg_cur, alone and in pairs
+    for v in U8_BOUNDS:
+        out += [full(lg_max=v), full(lg_cur=v), empty(lg_max=v), empty(lg_cur=v), full(lg_max=v, lg_cur=v), empty(lg_max=v, lg_cur=v)]
+        for w in (0, 3, 4, 63):
+            out += [full(lg_max=v, lg_cur=w), empty(lg_max=w, lg_cur=v)]
+    # flags and the preamble byte (incl. its two top bits)
+    for f in (0, 1, 4, 5, 0xFF):
+        out += [full(flags=f), empty(flags=f)]
+        for hb in (1, 2, 3):
+            out += [full(flags=f, hibits=hb), empty(flags=f, hibits=hb)]
+    for pre in (0, 1, 2, 3, 4, 5, 63, 64, 65, 68, 127, 128, 132, 196, 255):
+        b = full(); b[0] = pre; out.append(b)
+        b = empty(); b[0] = pre; out.append(b)
+    # active_items: around the capacity with a matching payload, and at the type's boundaries with the base payload
+    for n in (0, 1, cap - 1, cap, cap + 1):
+        ps = [(x, 1 + i) for i, x in enumerate(items[:n])]
+        out.append(full(weight=sum(c for _, c in ps) + 5, pairs=ps))
+    for v in U32_BOUNDS + [cap - 1, cap, cap + 1, 2, 4]:
+        b = full(); b[8:12] = list(v.to_bytes(4, "little")); out.append(b)
+    # stream_weight and offset, alone and in pairs
+    for v in U64_BOUNDS:
+        out += [full(weight=v), full(offset=v), full(weight=v, offset=v), full(weight=v, offset=0, pairs=[]), full(weight=2**64 - 1, offset=v)]
+    sc = sum(c for _, c in base_pairs)
+    out += [full(weight=sc + 3, offset=3), full(weight=sc + 2, offset=3), full(weight=sc, offset=0), full(weight=sc - 1, offset=0)]
+    # every counter at the boundaries of u64; sums that reach exactly 2^64 - 1 and 2^64
+    for v in (0, 1, 2**63 - 1, 2**63, 2**64 - 1):
+        for pos in range(len(base_pairs)):
+            ps = list(base_pairs); ps[pos] = (ps[pos][0], v)
+            out += [full(pairs=ps), full(pairs=ps, weight=2**64 - 1, offset=0)]
+    x0, x1 = items[0], items[1]
+    out += [full(pairs=[(x0, 2**64 - 2), (x1, 1)], weight=2**64 - 1, offset=0),        # sum = 2^64 - 1 exactly
+            full(pairs=[(x0, 2**64 - 1), (x1, 1)], weight=2**64 - 1, offset=0),        # sum = 2^64
+            full(pairs=[(x0, 2**63), (x1, 2**63)], weight=2**64 - 1, offset=0),        # sum = 2^64
+            full(pairs=[(x0, 2**63), (x1, 2**63 - 1)], weight=2**64 - 1, offset=0),    # sum = 2^64 - 1
+            full(pairs=[(x0, 2**64 - 3), (x1, 1)], weight=2**64 - 1, offset=1),        # sum + offset = 2^64 - 1
+            full(pairs=[(x0, 2**64 - 3), (x1, 1)], weight=2**64 - 1, offset=2)]        # sum + offset = 2^64
+    # items at the boundaries of i64, duplicates
+    for v in I64_BOUNDS:
+        ps = list(base_pairs); ps[1] = (v, ps[1][1]); out.append(full(pairs=ps))
+    out += [full(pairs=[(v, 1 + i) for i, v in enumerate(I64_BOUNDS)], weight=20),
+            full(pairs=[(7, 2), (7, 3)], weight=9), full(pairs=[(-2**63, 2), (-2**63, 3), (2**63 - 1, 1)], weight=9),
+            full(pairs=[(5, 1)] * cap, weight=cap + 1), full(pairs=[(5, 1)] * (cap + 1), weight=cap + 2)]
+    keep = []
+    for b in out:
+        r = ref_parse(b)
+        if r is not None and max(r[1], 3) > 10:
+            continue
+        keep.append(b)
+    return keep
+
+
+def gen_boundaries(rng, cid, tier, part, nparts):
+    """C14: slice [part] of [nparts] of the boundary images, each parsed and -- when accepted -- used"""
+    imgs = boundary_images(random_for_boundaries())
+    ops = []
+    for b in imgs[part::nparts]:
+        r = ref_parse(b)
+        ops.append(parse_op(0, b))
+        ops += use_value_ops(rng, 0, r[0] if r else 3, image_items(b), r[2] if r else 0)
+    return Case(cid, [], ops, tag="fi-malformed-bounds")
+
+
+def random_for_boundaries():
+    import random
+    return random.Random(20260926)
+
+
 def gen_bigalloc(rng, cid, tier):
     """C14: valid images (8-byte empty form, or a short full form) that announce a current map of 2^lg_cur slots: the
     table is inherent in the format (known finding C14-freq-table-alloc).  lg_cur stays <= 22 here (109 MB); nothing
@@ -856,7 +1005,9 @@ def gen(rng, tier, n=None, focus=None):
         return [gen_layout(rng, i, tier) for i in range(n)]
     if focus == "malformed":
         n = n or (30 if tier == "quick" else 400)
-        return [gen_malformed(rng, i, tier) for i in range(n)] + [gen_bigalloc(rng, n + i, tier) for i in range(2 if tier == "quick" else 6)]
+        nb = 12
+        return ([gen_malformed(rng, i, tier) for i in range(n)] + [gen_boundaries(rng, n + i, tier, i, nb) for i in range(nb)]
+                + [gen_bigalloc(rng, n + nb + i, tier) for i in range(2 if tier == "quick" else 6)])
     if focus == "foreign":
         n = n or (30 if tier == "quick" else 400)
         return [gen_foreign(rng, i, tier) for i in range(n)]
@@ -889,7 +1040,7 @@ def gen(rng, tier, n=None, focus=None):
         plan += [("single", size, k) for k in (KINDS if tier == "thorough" else rng.sample(KINDS, 2))]
     plan += [("d6", s, None) for s in (8, rng.choice([16, 32, 64]))]
     plan += [("heavy", 8, None), ("heavy", rng.choice([16, 32, 64, 128]), None)]
-    plan += [("images", None, None), ("badnew", None, None)]
+    plan += [("images", None, None), ("badnew", None, None), ("strings", None, None), ("strings", None, None)]
     nskel = len(plan)
     while len(plan) < n:
         r = rng.random()
@@ -906,8 +1057,10 @@ def gen(rng, tier, n=None, focus=None):
             plan.append(("d6", rng.choice([8, 16, 32, 128]), None))
         elif r < 0.91:
             plan.append(("heavy", rng.choice([8, 8, 16, 32, 64, 256]), None))
-        elif r < 0.97:
+        elif r < 0.95:
             plan.append(("images", None, None))
+        elif r < 0.98:
+            plan.append(("strings", None, None))
         else:
             plan.append(("badnew", None, None))
     plan = plan[:n]
@@ -925,6 +1078,8 @@ def gen(rng, tier, n=None, focus=None):
             cases.append(gen_heavy(rng, i, a))
         elif what == "images":
             cases.append(gen_images(rng, i))
+        elif what == "strings":
+            cases.append(gen_strings(rng, i, tier))
         else:
             cases.append(gen_badnew(rng, i))
     return cases
@@ -934,8 +1089,8 @@ def nontrivial(case, obs):
     """at least 2 distinct items updated with positive weight and at least one bound query; or a fork (op 7) of a
     sketch that was updated; or at least 3 images fed to parse of which one is accepted and one rejected; or a foreign
     image with at least 2 counters accepted and then queried"""
-    items = {a[1] for (c, a) in case.ops if c == 1 and a[2] > 0}
-    if len(items) >= 2 and any(c == 2 for (c, a) in case.ops):
+    items = {a[1] for (c, a) in case.ops if c in (1, 21) and a[2] > 0}
+    if len(items) >= 2 and any(c in (2, 22) for (c, a) in case.ops):
         return True
     if items and any(c == 7 for (c, a) in case.ops):
         return True
